@@ -5,7 +5,7 @@ from . import core
 
 ALL4 = ["mem", "bolt", "multimem", "multios"]
 CORE_OPS = {"CreateBucket", "HeadBucket", "DeleteBucket", "ListBuckets", "PutObject", "GetObject", "HeadObject",
-            "DeleteObject", "DeleteMulti", "CopyObject", "ListObjects"}
+            "DeleteObject", "DeleteMulti", "DeleteMultiQuiet", "CopyObject", "ListObjects"}
 STORE_PROPS = ["NeverLost", "Frame", "RejectedUnchanged", "FreshVid", "ReadYourWrite"]
 STORE_INVS = ["TypeOK", "NeverVersionedFlat", "UniqueVids"]
 
